@@ -41,7 +41,7 @@ static rc::Gen<Case> genCase() {
     return rc::gen::exec([]() {
         Case k;
         k.region = *irange(0, 6);
-        const double L = *rc::gen::element(1e-6, 1e-5, 1.0, 1.0, 37.0, 1e3);  // micrometres-in-metres .. large
+        const double L = *rc::gen::element(1e-6, 1e-5, 1.0, 1.0, 37.0, 1e3, 1e-8, 3e-10, 1e-12, 1e6);  // picometre-sized features in metres .. micrometres-in-metres .. large: the kernel is scale free
         // triangle in its own plane: A=(0,0), B=(1,0), C=(cx,cy); cy >= 2e-3 keeps it non-degenerate
         const double cx = *uniform(-2.0, 3.0);
         const double cy = *rc::gen::oneOf(uniform(0.3, 2.0), loguniform(2e-3, 0.3));
